@@ -42,7 +42,7 @@ def harnesses(tier, findings):
         return [a, f(1, 1, timeout=900)]
     if tier == "quick":
         return [f(1, 1), f(1, 1, file_uri=1, meta=1), fstep()]
-    return [f(1, 1), f(1, 1, file_uri=1, meta=1), f(2, 1, timeout=3000, meta=1), f(2, 2, timeout=3000), f(1, 1, desc=30, timeout=3000), fstep(3000)]
+    return [f(1, 1), f(1, 1, file_uri=1, meta=1), f(2, 1, timeout=3000), f(2, 2, timeout=3000), f(1, 1, desc=30, timeout=3000), fstep(3000)]
 
 META = dict(
     level="model_checking",
